@@ -119,6 +119,31 @@ def run(ctx):
                        ("+5", None), ("007", None), ("-01", None), ("1.", None), (".5", None), ("\u00a05", None), ("5\ufeff", None), ("0x5", None), ("1_0", None),
                        ("-", None), ("--5", None), ("5 5", None), ("Infinity", None), ("NaN", None), ("1e", None)]:
         cases.append(("literal-number", "`" + text + "`", "n", want))
+    # several spelled forms in ONE expression, in particular a raw string and a JSON literal with the SAME inner text (and the same form twice):
+    # each denotes its own value whatever else the expression contains
+    shared = ["1", "true", "null", "[1]", "{}", "\"a\"", "-0", "10", "[]", "\"\"", "false", "[1, 2]", "{\"a\": 1}", "\"1\"", "0"]
+    for t in shared:
+        v = json.loads(t)
+        lv = G.f64_bits(-0.0) if t == "-0" else G.json_to_enc(v)
+        rv = E.dump(("s", t))
+        for expr, want in [("['%s', `%s`]" % (t, t), "[ %s %s ]" % (rv, lv)), ("[`%s`, '%s']" % (t, t), "[ %s %s ]" % (lv, rv)),
+                           ("['%s', '%s', `%s`, `%s`]" % (t, t, t, t), "[ %s %s %s %s ]" % (rv, rv, lv, lv)),
+                           ("{a: `%s`, b: '%s'}.b" % (t, t), rv), ("{a: '%s', b: `%s`}.b" % (t, t), lv),
+                           ("'%s' | `%s`" % (t, t), lv), ("`%s` | '%s'" % (t, t), rv),
+                           ("'%s' == `%s`" % (t, t), "t" if isinstance(v, str) and v == t else "f")]:
+            cases.append(("multi", expr, "u0", want))
+    for _ in range(300 if q else 20000):
+        parts, wants = [], []
+        for _k in range(rng.randrange(2, 5)):
+            if rng.random() < 0.5:
+                x = rng.choice([c for c in strs[:400] if raw_spellable(c)] or ["a"])
+                parts.append(raw_spell(x))
+                wants.append(E.dump(("s", x)))
+            else:
+                v = rng.choice([1, 0, True, None, "a", [1], {}, "1", [], [None, "x"], {"k": 2}, rng.randrange(-50, 50), rnd_str(rng, 3)])
+                parts.append(lit_spell(json.dumps(v, ensure_ascii=rng.random() < 0.5)))
+                wants.append(G.json_to_enc(v))
+        cases.append(("multi", "[" + ", ".join(parts) + "]", "u0", "[ " + " ".join(wants) + " ]"))
     for bad in ["'abc", "'a\\'", "`1", "`{`", "`[1,]`", "`tru`", '"abc', '"\\ud800"', '"\\x"', '"a\nb"', '"\x01"', "`\"\\ud800\"`", "``", "`1 2`",
                 '"a"(@)', "a.'b'"]:
         cases.append(("malformed", bad, "{ }", None))
@@ -145,7 +170,8 @@ def run(ctx):
                 ctx.violation("eval", case, ci[:300], "ok " + want[:300], "a JSON literal does not evaluate to the value it holds")
         elif ci != "ok " + want:
             ctx.violation("eval", case, ci[:300], "ok " + want[:300],
-                          {"raw": "the raw-string spelling of a string does not evaluate to it", "literal": "a JSON literal does not evaluate to the value it holds"}
+                          {"raw": "the raw-string spelling of a string does not evaluate to it", "literal": "a JSON literal does not evaluate to the value it holds",
+                           "multi": "a raw string / JSON literal does not denote its own value when other spelled forms stand in the same expression"}
                           .get(kind, "the identifier does not select the member with exactly that name"))
             continue
         if ci != cm:
